@@ -207,7 +207,7 @@ class HPAngle(object):
         :param hp_angle: float HP angle
         """
         self.hp_angle = float(hp_angle)
-        hp_dec_str = f'{self.hp_angle:.13f}'.split('.')[1]
+        hp_dec_str = hp_str(self.hp_angle).split('.')[1]
         if int(hp_dec_str[0]) > 5:
             raise ValueError(f'Invalid HP Notation: 1st decimal place greater '
                              f'than 5: {self.hp_angle}')
@@ -959,7 +959,9 @@ def dec2hp(dec):
     # are between 256 and 512 degrees. Precision improves for smaller angles.
     # In calculating the variable 'second' the precision is degraded by a factor of 3600 
     # Therefore 'second' should be rounded to 9 DP and tested for carry.
-    if round(second, 9) == 60:
+    # From 512 degrees a float holds only 12 places, so 'second' is rounded to 8 DP there.
+    sec_dp = 9 if abs(dec) < 512 else 8
+    if round(second, sec_dp) == 60:
         second = 0
         minute += 1
         if minute == 60:
@@ -970,7 +972,7 @@ def dec2hp(dec):
     # a string will be built to represent a sexagesimal number and then converted to float
     degree = f'{int(degree)}'
     minute = f'{int(minute):02}'
-    second = f'{second:012.9f}'.rstrip('0').replace('.', '')
+    second = f'{second:0{sec_dp + 3}.{sec_dp}f}'.rstrip('0').replace('.', '')
     
     hp_string = f'{degree}.{minute}{second}'
     hp = float(hp_string)
@@ -1041,6 +1043,18 @@ def dec2ddm(dec):
 
 # Functions converting from Hewlett-Packard (HP) format to other formats
 
+def hp_str(hp):
+    """
+    Renders HP Notation as a string with all the decimal places a float can hold
+    :param hp: HP Notation (DDD.MMSSSS)
+    :type hp: float
+    :return: HP Notation with 13 decimal places (12 from 512 degrees, where the
+             13th place of a float is no longer significant)
+    :rtype: str
+    """
+    return f'{hp:.13f}' if abs(hp) < 512 else f'{hp:.12f}0'
+
+
 def hp2dec(hp):
     """
     Converts HP Notation to Decimal Degrees
@@ -1051,7 +1065,7 @@ def hp2dec(hp):
     """
     # Check if 1st and 3rd decimal place greater than 5 (invalid HP Notation)
     hp = float(hp)
-    hp_deg_str, hp_mmss_str = f'{hp:.13f}'.split('.')
+    hp_deg_str, hp_mmss_str = hp_str(hp).split('.')
     if int(hp_mmss_str[0]) > 5:
         raise ValueError(f'Invalid HP Notation: 1st decimal place greater '
                          f'than 5: {hp}')
@@ -1122,7 +1136,7 @@ def hp2dms(hp):
     """
     # parse string to avoid precision problems with floating point ops and base 10 numbers
     hp = float(hp)
-    hp_deg_str, hp_mmss_str = f'{abs(hp):.13f}'.split('.')
+    hp_deg_str, hp_mmss_str = hp_str(abs(hp)).split('.')
     degree = int(hp_deg_str)
     minute = int(hp_mmss_str[:2])
     second = float(hp_mmss_str[2:4] + '.' + hp_mmss_str[4:])
@@ -1140,7 +1154,7 @@ def hp2ddm(hp):
     """
     # parse string to avoid precision problems with floating point ops and base 10 numbers
     hp = float(hp)
-    hp_deg_str, hp_mmss_str = f'{abs(hp):.13f}'.split('.')
+    hp_deg_str, hp_mmss_str = hp_str(abs(hp)).split('.')
     degree = int(hp_deg_str)
     second = float(hp_mmss_str[2:4] + '.' + hp_mmss_str[4:])
     minute = int(hp_mmss_str[:2]) + (second / 60)
